@@ -12,6 +12,8 @@ from hypothesis import strategies as st
 from checks import c05
 from vlib import decwork, msgsets
 from vlib import refproto as rp
+from vlib.engines import cons as _cons
+from vlib.engines.base import drive as _drive, run_trace as _run_trace
 from vlib.runner import HOME, REPO, hyp
 
 PROP = "C12"
@@ -28,7 +30,11 @@ RULE = (
     "(sys.monitoring LINE events inside afkak/) and tracemalloc peak <= 256KiB + 64*(len+decompressed). "
     "non-trivial = (a) a mutation inside a wrapper or a magic-1 message, or a burst > 1 bit; (b) a cut strictly inside a "
     "non-first entry; (c) an input on which the decoder executed >= 10 lines (got past its first length check); distinct = "
-    "distinct (set, mutation) / input."
+    "distinct (set, mutation) / input. (d) end to end: engine CONS traces (real Consumer + KafkaClient + codec on the simulated "
+    "cluster, buffers 64 B..1 MiB+1, optional maximum, messages of 400 B..4 MiB appended while consuming): after a fetch answer "
+    "that holds only part of a message and arrived in time, the next fetch of that run asks for the same offset with a larger "
+    "buffer, and the run does not fail with ConsumerFetchSizeTooSmall while the maximum is not reached; non-trivial = the buffer "
+    "grew or sat at its maximum; distinct = distinct trace."
 )
 ASSUMPTIONS = [
     "CRC-32 detects every single-bit error and every burst of <= 32 bits, so any yielded altered content is a violation",
@@ -307,7 +313,18 @@ def _atheris(ctx, runs, max_len):
         raise RuntimeError("atheris target failed:\n" + out[-3000:])
 
 
+class BufEng(_cons.CONSEngine):
+    """clause 'the consumer then enlarges its buffer rather than skipping', end to end through the real Consumer + client + codec"""
+    MACROS = ["bigmsg", "bigmsg", "bigmsg", "steady"]
+    MACRO_ONE_IN = 2
+
+    def nontrivial(self):
+        return "buffer-growth" in self.nt or "buffer-at-maximum" in self.nt
+
+
 def shard(ctx):
+    # (d) first (before the line counter is installed: it would slow the engine down)
+    _drive(ctx, BufEng, ctx.n(16 * 60, 16 * 1500), min_steps=6, max_steps=40, offset=3, props={"C12"})
     decwork.install()
 
     def body(case):
@@ -339,6 +356,9 @@ def shard(ctx):
 
 
 def replay(case, ctx):
+    if isinstance(case, dict) and case.get("engine") == "CONS":
+        _run_trace(BufEng, case, ctx, props={"C12"})
+        return
     decwork.install()
     if case["kind"] == "set":
         check_set(ctx, case)
